@@ -103,8 +103,6 @@ def known_predicates(module):
                 hits.add('enum-in-class')
         if k == 'func':
             names = [d[3]]
-        if any(n in ('async', 'await') for n in names):
-            hits.add('C03-keywords-async-await')
         tpls = []
         if k in ('class', 'func') and d[1] is not None:
             tpls.append(d[1])
@@ -150,8 +148,6 @@ def known_predicates(module):
                 hits.add('typedef-of-function')
             elif not (path[:len(tns)] == tuple(tns)):
                 hits.add('C03-typedef-outside-its-template-namespace')
-        if k == 'var' and d[3] is not None and path:
-            hits.add('C09-namespaced-variable-with-value')
         if k == 'ns' or not path:
             pass
         if k == 'class' and d[1] is not None:
@@ -272,7 +268,6 @@ def run_oracle(rep, n, categories, configs=None, prefix='py'):
         if 'ignore' in categories or 'presence' in categories:
             cls = [r for r in expected(m) if r[0] == 'class']
             enum_cls = {r[1][1] for r in expected(m) if r[0] == 'enum' and r[1][0] == 'class'}
-            cls = [r for r in cls if r[2] not in enum_cls]          # known finding: enums of an ignored class stay
             if cls:
                 multi = [r for r in cls if ', ' in r[3]]
                 pick = (multi or cls)[rep.bounded['evaluations'] % len(multi or cls)]
